@@ -7,7 +7,6 @@ import (
 
 	"github.com/dominikbraun/graph"
 	"github.com/dominikbraun/graph/draw"
-	"golang.org/x/sync/errgroup"
 )
 
 type TaskfileGraph struct {
@@ -51,62 +50,62 @@ func (tfg *TaskfileGraph) Merge() (*Taskfile, error) {
 		return nil, err
 	}
 
-	predecessorMap, err := tfg.PredecessorMap()
+	adjacencyMap, err := tfg.AdjacencyMap()
 	if err != nil {
 		return nil, err
 	}
 
-	// Loop over each vertex in reverse topological order except for the root vertex.
-	// This gives us a loop over every included Taskfile in an order which is safe to merge.
-	for i := len(hashes) - 1; i > 0; i-- {
+	// Loop over each vertex in reverse topological order. When a vertex is
+	// reached, everything it includes has already been merged with its own
+	// includes, so it is safe to merge into the vertex. The included Taskfiles
+	// are merged in the order in which the vertex declares them, so the result
+	// does not depend on the order of the topological sort or on the order in
+	// which the edges were added to the graph.
+	for i := len(hashes) - 1; i >= 0; i-- {
 		hash := hashes[i]
 
-		// Get the included vertex
-		includedVertex, err := tfg.Vertex(hash)
+		// Get the base vertex
+		vertex, err := tfg.Vertex(hash)
 		if err != nil {
 			return nil, err
 		}
 
-		// Create an error group to wait for all the included Taskfiles to be merged with all its parents
-		var g errgroup.Group
-
-		// Loop over edge that leads to a vertex that includes the current vertex
-		for _, edge := range predecessorMap[hash] {
-
-			// Start a goroutine to process each included Taskfile
-			g.Go(func() error {
-				// Get the base vertex
-				vertex, err := tfg.Vertex(edge.Source)
-				if err != nil {
-					return err
-				}
-
-				// Get the merge options
-				includes, ok := edge.Properties.Data.([]*Include)
-				if !ok {
-					return fmt.Errorf("task: Failed to get merge options")
-				}
-
-				// Merge the included Taskfiles into the parent Taskfile
-				for _, include := range includes {
-					if err := vertex.Taskfile.Merge(
-						includedVertex.Taskfile,
-						include,
-					); err != nil {
-						return err
-					}
-				}
-
-				return nil
-			})
-			if err := g.Wait(); err != nil {
-				return nil, err
+		// Get the merge options of every included Taskfile by namespace
+		type merge struct {
+			hash    string
+			include *Include
+		}
+		merges := map[string]merge{}
+		for includedHash, edge := range adjacencyMap[hash] {
+			includes, ok := edge.Properties.Data.([]*Include)
+			if !ok {
+				return nil, fmt.Errorf("task: Failed to get merge options")
+			}
+			for _, include := range includes {
+				merges[include.Namespace] = merge{hash: includedHash, include: include}
 			}
 		}
 
-		// Wait for all the go routines to finish
-		if err := g.Wait(); err != nil {
-			return nil, err
+		// Merge the included Taskfiles into the parent Taskfile
+		for namespace := range vertex.Taskfile.Includes.Keys() {
+			// An optional include that was not found has no edge
+			m, ok := merges[namespace]
+			if !ok {
+				continue
+			}
+
+			// Get the included vertex
+			includedVertex, err := tfg.Vertex(m.hash)
+			if err != nil {
+				return nil, err
+			}
+
+			if err := vertex.Taskfile.Merge(
+				includedVertex.Taskfile,
+				m.include,
+			); err != nil {
+				return nil, err
+			}
 		}
 	}
 
